@@ -30,7 +30,7 @@ SNAP_FIELDS = ("particle_type", "positions", "boxlength", "boxbounds", "realboun
 NL_PATHS = ("neighborlist.dat", "nl_a.dat", "nl_b.dat")
 VOR_PREFIXES = ("vor_a", "vor_b")
 OUT = {
-    "csv": ("out_a.csv", "out_b.csv", "out.v2.csv", "outdir/out_a.csv"),
+    "csv": ("out_a.csv", "out_b.csv", "out.v2.csv", "outdir/out_a.csv", "out_T0.45.dat", "out_run1", "OUT_B.CSV"),   # a table is a table whatever its name says
     "npy": ("res_a.npy", "res_b.npy", "res_c", "res.v2", "outdir/res_a.npy"),      # np.save appends .npy to a bare name
     "txt": ("res_a.dat", "res_b.txt", "res_a.npy"),  # .dat / .txt switch on the text branch of boo_3d
     "prefix": ("pre_a", "pre_b", "", "outdir/pre.v2"),
@@ -224,6 +224,7 @@ class World(WorldBase):
             "p_thread": rng.choice([0.0, 0.0, 0.0, 0.15]),
             "huge": rng.random() < float(os.environ.get("VERIF_C18_HUGE", "0.01")),
             "p_respell": rng.choice([0.0, 0.05, 0.15]),
+            "p_result_edit": rng.choice([0.0, 0.1, 0.3]),
             "faults": [],
         }
         if batch == "fault":
@@ -233,6 +234,7 @@ class World(WorldBase):
             sw["chunk"] = rng.choice(CHUNKS[:4])
             sw["buf"] = rng.choice(BUFS[:4])
             sw["p_outfile"] = rng.choice([0.5, 0.8])
+            sw["hold_max"] = rng.choice([0, 1, 3])
         return sw
 
     # ------------------------------------------------------------------ construction ----
@@ -247,6 +249,7 @@ class World(WorldBase):
         self.history = {}     # op id -> op (acknowledged, defining ops only are needed for closures)
         self.last_call = {}   # adapter id -> canonical digest of its last result (repeat-call probe)
         self.recent = []      # the last few acknowledged call ops (for echoes)
+        self.disk = None      # digests of the sandbox's files after the last operation
         self.plain_by_id = {}  # op id -> (closure ids, canonical result) of recent calls without an object (respelled re-issues)
         self.readers_of = {}  # path -> recent ops that read it
         self.reissue = []     # ops to make again after the file they read was rewritten / an argument was edited
@@ -379,6 +382,19 @@ class World(WorldBase):
                     return self.stamp(op, rng)
                 except Refuse:
                     pass
+        if self.recent and rng.random() < sw.get("p_result_edit", 0.0):
+            # the client post-processes, in place, what a method of a long-lived object has just
+            # returned to it, and calls the method again: if the object handed out its own state,
+            # the second answer (and every later one) is another
+            last = self.recent[-1]
+            if "obj" in last and last["obj"] in self.pool and last["id"] != getattr(self, "_last_result_edit", None):
+                names = sorted(n for n, e in self.pool.items() if e.src == last["id"] and e.kind == "arr" and e.tag.get("result")
+                               and e.tag.get("role") != "held" and isinstance(e.value, np.ndarray) and e.value.dtype.kind in "fc"
+                               and e.value.size and e.value.flags.writeable)
+                if names:
+                    self._last_result_edit = last["id"]
+                    self.reissue.append(dict(last, why="result_edit"))
+                    return self.stamp({"op": "edit", "target": rng.choice(names), "how": rng.randrange(3), "seed": rng.randrange(1 << 30)}, rng)
         if rng.random() < sw.get("p_edit", 0.0) * (3.0 if sw.get("huge") else 1.0):
             op = self.gen_file_edit(rng) if rng.random() < (0.7 if sw.get("huge") else 0.3) else self.gen_edit(rng)
             if op is not None:
@@ -441,12 +457,12 @@ class World(WorldBase):
                                        "exc": "alloc_line" if kind == "alloc_line" else "interrupt_line"}
                         self.ctx.probe("dry_runs_lines")
                     elif nln > 0:
-                        op["fault"] = {"kind": kind, "at": rng.randint(1, nln)}
+                        op["fault"] = {"kind": kind, "at": rng.randint(1, nln), "hold": rng.randint(0, sw.get("hold_max", 0))}
                         self.ctx.probe("dry_runs_lines")
                 elif a.faultable:
                     nev = self.dry_events(lambda: self.exec_call(op, dry=True))
                     if nev > 0:
-                        op["fault"] = {"kind": kind, "at": self.pick_fault_event(rng, nev)}
+                        op["fault"] = {"kind": kind, "at": self.pick_fault_event(rng, nev), "hold": rng.randint(0, sw.get("hold_max", 0))}
                         if kind == "oserror_write" and rng.random() < 0.5:
                             op["fault"]["persist"] = True        # the disk stays full for the rest of the call
                         self.ctx.probe("dry_runs")
@@ -662,6 +678,37 @@ class World(WorldBase):
 
     # -------------------------------------------------------------------- execution ----
     def apply(self, op):
+        if self.replica:
+            return self.apply2(op)
+        self.tick_held()
+        if self.due():
+            self.release_due()
+        self.check_disk_between_calls()
+        try:
+            return self.apply2(op)
+        finally:
+            self.disk = dirstate(self.ctx.root)
+
+    def check_disk_between_calls(self):
+        """Nothing but the release of a kept exception happens between two operations: a file
+        the library wrote and acknowledged must not change then (the stale buffer of a handle
+        that an earlier, cancelled call leaked is flushed when that handle is finalised)."""
+        if self.disk is None:
+            return
+        now = dirstate(self.ctx.root)
+        for p in sorted(self.files):
+            if self.disk.get(p) != now.get(p, "absent") and p in self.disk:
+                src = self.history.get(self.files[p].get("src"), {})
+                raise Violation(f"C18/I3-file-changed-later:{src.get('ad', '?')}:{kind_of(p)}",
+                                f"{p}, written by {src.get('ad', '?')} and correct when it was written, changed afterwards without any "
+                                f"call being made ({self.disk.get(p)} -> {now.get(p, 'absent')}): it no longer holds what was returned")
+
+    def finish(self):
+        if not self.replica and self.held:
+            self.release_all()
+            self.check_disk_between_calls()
+
+    def apply2(self, op):
         k = op["op"]
         if k == "mk_snaps":
             return self.do_mk_snaps(op)
@@ -760,7 +807,12 @@ class World(WorldBase):
             ctx.probe("call_from_worker_thread")
             fn = self.in_thread(client_call)
         res, exc, (nev, dig, fired) = self.call(fn, fault)
-        self.drop_last()          # C18's clients never keep the exception of a failed call
+        if exc is not None and fault and fault.get("hold", 0) > 0 and not self.replica:
+            # the client keeps the exception of the failed call for a while (sys.last_exc in a
+            # REPL, a job runner collecting errors): what the call leaked is finalised later
+            self.hold_last(fault["hold"], tag)
+        else:
+            self.drop_last()
         after = dirstate(ctx.root)
         delta = {p: d for p, d in after.items() if before.get(p) != d}
         delta.update({p: "absent" for p in before if p not in after})
@@ -961,8 +1013,6 @@ class World(WorldBase):
     def invariants(self):
         pass
 
-    def finish(self):
-        pass
 
     # ------------------------------------------------------------------ bookkeeping ----
     def brief(self, op):
